@@ -36,8 +36,14 @@ var (
 	Passthrough = true
 )
 
+// Silence is the answer of a server that accepts the request and then stays silent.
+const Silence = -1
+
+// Unbounded counts requests that met a silent server without any client-side time limit.
+var Unbounded int
+
 // Reset clears the log.
-func Reset() { Log = nil }
+func Reset() { Log = nil; Unbounded = 0 }
 
 func Post(url, contentType string, body io.Reader) (*http.Response, error) {
 	if Passthrough {
@@ -88,6 +94,22 @@ func model(url string, body io.Reader, req *http.Request) (*http.Response, error
 		status = Answer(r)
 	}
 	r.Status = status
+	if status == Silence {
+		// The server accepts the request and never answers. A client with a time limit gets its timeout
+		// error (virtual time: at once); a client without one would wait for ever, which is recorded and
+		// then treated like a transport error so that the execution can go on.
+		limited := false
+		if req != nil {
+			_, limited = req.Context().Deadline()
+		}
+		if !limited {
+			Unbounded++
+		}
+		if sched.Active() {
+			sched.Point("http.post.timeout", 0)
+		}
+		return nil, errors.New("verif: the upload server does not answer (client timeout)")
+	}
 	if sched.Active() {
 		sched.Point("http.post.recv", 0)
 	}
